@@ -2,11 +2,12 @@
 from kanirun import H
 
 FACADE = True
-FUNCS = ["(mirsym) client::pool::Pool::checkout, <Checkout as Future>::poll, <Checkout as PinnedDrop>::drop, Checkout::as_delayed, PoolInner::cancel_connection", "service::timeout::Timeout::call", "service::timeout::Timeout::poll_ready", "service::timeout::future::TimeoutFuture::new", "service::timeout::future::TimeoutFuture::poll"]
+FUNCS = ["(mirsym) client::pool::Pool::checkout, <Checkout as Future>::poll, <Checkout as PinnedDrop>::drop, Checkout::as_delayed, PoolInner::cancel_connection, <Pooled as Drop>::drop, <WhenReady as Future>::poll, <WhenReady as Drop>::drop, PoolInner::push", "service::timeout::Timeout::call", "service::timeout::Timeout::poll_ready", "service::timeout::future::TimeoutFuture::new", "service::timeout::future::TimeoutFuture::poll"]
 BOUNDS = ("up to 4 polls at arbitrary non-decreasing virtual instants; issue instant t0 <= 1e6 ns, duration <= 1000 ns (keeps Duration construction division-free), "
           "poll instants <= 2e6 ns, inner completion instant any u64 or never, inner result Ok/Err symbolic; unwind 6")
-OUTSIDE = ("pool clean-up after expiry only for the stages in which the dropped future is a Checkout (waiting for its own or another request's dial: E2 obligation below); "
-           "expiry while handshaking / sending / awaiting the response happens inside hyper's futures; "
+OUTSIDE = ("pool clean-up after expiry for the stages in which the dropped future is a Checkout (waiting for its own or another request's dial) and for an exchange in flight on a pooled connection "
+           "while another request is dialing (the connection is released closed for HTTP/1.1, open for HTTP/2): E2 obligation below; "
+           "what hyper does inside the dropped handshake / exchange futures; "
            "tokio's real timer wheel waking the task at the deadline (the facade's Sleep is Ready iff NOW >= deadline)")
 ASSUMPTIONS = ["tokio::time::sleep modelled by the facade crate: deadline = now + duration, Ready iff now >= deadline",
                "the runtime polls the future no later than the instant its timer fires (per-poll contract => by-deadline resolution)"]
